@@ -1,15 +1,35 @@
 (* EngineSafetyLongFit.v -- proof of the hypothesis LongCodesFit of EngineSafetyHeader.v:
    the long-code groups built by encodeLongCodes for an accepted literal/length code fit
-   longCodeLookup[1264] (the ISA-L table-size claim ISAL_L_SIZE, for this implementation,
-   including the effect of the invalidCodeValue quirk on the group with key 4095).
+   longCodeLookup[1264] (the ISA-L table-size claim ISAL_L_SIZE, for this implementation).
+
+     Theorem long_codes_fit : LongCodesFit.          (closed under the global context)
+
+   Facts found on the way (see also EngineSafetyLongFitDefs.v):
+   * The claim is true but NOT for the textbook reason only.  encodeLongCodes marks processed codes
+     with invalidCodeValue = 0xFFFFFF, whose low 12 bits are 4095; when the group with key 4095
+     (twelve leading 1 bits) is processed, the already marked entries of earlier groups match again
+     and maxLen becomes the length of the last of them: that group can be inflated to 2^(M-12),
+     M = the largest expanded length of all long codes (up to 256 entries instead of 8).  The Go
+     code (and ISA-L) behave the same.  Largest totals found by search: 1166 without this effect,
+     1196 with it (Coq model evaluated on that code: lcl = 1196); upper bound proved here: 1234.
+   * Not modelled in Engine.v (hence not covered): the index tempCodeList[tempCodeLength] of the
+     Go code (array of 512).  It cannot overflow: a group holds at most 256 codes (Kraft within a
+     12-bit prefix, expanded length <= 20), 512 matches after position i need i <= 1 (at most 514
+     codes), and then at most one earlier group is marked: at most 255 + 255 matches.
 
    Structure (definitions and statements of the parts: EngineSafetyLongFitDefs.v):
-     Part A  EngineSafetyLongFitCodes.v  codes_desc    : the stored code values
-     Part B  EngineSafetyLongFitLoop.v   groups_bound  : elc_loop against a weight function on keys
-     Part C  this file                   the weights of a canonical code are dominated by a run of
-                                         the track machine (track_inv), assembly (long_codes_fit)
-     Part D  EngineSafetyLongFitDP.v     machine_bound : every run of the machine is <= 1264
-     bits    EngineSafetyLongFitBits.v   facts about bitReverse2 checked exhaustively *)
+     M1  EngineSafetyLongFitCodes.v  codes_desc    : every stored huffCode is the bit-reversed,
+                                     expanded canonical code (fcode/ccode) of a symbol; Kraft
+     M2  EngineSafetyLongFitLoop.v   groups_bound  : elc_loop does not panic if a weight function B
+                                     on the 4096 keys dominates 2^(len-12) of every long code
+                                     (the key 4095: also 2^(M-12)) and sum B <= 1264
+     M3  this file                   run_all / final_bound: the weights Bf of a canonical code are
+                                     dominated by a run of the "track machine" (one track per
+                                     Huffman length 13, 14, 15; blocks = 12-bit prefixes; symbols
+                                     in index order, the codes of one length are consecutive);
+         EngineSafetyLongFitDP.v     machine_bound : every run of the machine is <= 1264 (exact
+                                     maximum 1234), by a certified forward dynamic programme
+         EngineSafetyLongFitBits.v   facts about bitReverse2 checked exhaustively by vm_compute *)
 From Verif Require Import Engine EngineTables.
 From Verif Require Import Base EngineSafetyBase EngineSafetyBits EngineSafetyInv.
 From Coq Require Import List NArith ZArith Bool Lia ZifyBool ZifyNat ZifyN.
@@ -473,7 +493,7 @@ Proof.
     destruct Hdiv as [Hd1 Hd2]. rewrite Hd1, Hd2.
     split; [lia|]. split; [intros _; lia|].
     rewrite (Bf_S_high k _ Hs Hl). fold lv. fold c. fold S. rewrite N.eqb_refl.
-    rewrite blkval_max. lia.
+    rewrite blkval_max. apply N.max_le_compat_r. exact I3.
 Qed.
 
 Lemma sum_place : forall k key w A V V' g,
@@ -490,3 +510,279 @@ Qed.
 
 Lemma Fkey_lt : forall l b, Fkey l b < 4096.
 Proof. intros l b. unfold Fkey. pose proof (land_le_r (bitReverse2 (b * 2 ^ (l - 12)) l) 4095). lia. Qed.
+
+Lemma Bsym_sum_le : forall s, Hlen h s <= 12 -> sumN KN (Bsym h s) <= 2 ^ sym_extra s.
+Proof.
+  intros s Hl. destruct (N.eq_dec (Hlen h s) 0) as [H0|H0].
+  - rewrite sumN_zero; [lia|]. intros g _. unfold Bsym, is_long. rewrite H0. reflexivity.
+  - apply Bsym_low_sum. lia.
+Qed.
+
+Lemma run_step_off : forall k st, N.of_nat k < 286 -> Hlen h (N.of_nat k) <= 12 -> run_inv k st ->
+  run_inv (S k) (mstep (sym_extra (N.of_nat k)) (Hlen h (N.of_nat k)) st).
+Proof.
+  intros k st Hs Hl (I1 & T13 & T14 & T15 & I5).
+  destruct (mstep_off (sym_extra (N.of_nat k)) (Hlen h (N.of_nat k)) st
+              ltac:(lia) ltac:(lia) ltac:(lia)) as (Hacc & HM & Hsame).
+  set (st' := mstep (sym_extra (N.of_nat k)) (Hlen h (N.of_nat k)) st) in *.
+  unfold run_inv. split; [|split; [|split; [|split]]].
+  - change (m13 st') with (trm 13 st'). change (m14 st') with (trm 14 st').
+    change (m15 st') with (trm 15 st').
+    rewrite (proj2 (Hsame 13)), (proj2 (Hsame 14)), (proj2 (Hsame 15)), Hacc.
+    change (trm 13 st) with (m13 st). change (trm 14 st) with (m14 st).
+    change (trm 15 st) with (m15 st).
+    pose proof (Bsym_sum_le (N.of_nat k) Hl) as Hb.
+    assert (Hle : sumN KN (Bf h (S k)) <= sumN KN (Bf h k) + sumN KN (Bsym h (N.of_nat k))).
+    { rewrite <- sumN_add. apply sumN_le. intros g _. cbn [Bf]. lia. }
+    lia.
+  - apply (trk_keep k st st' 13 T13); [apply Hsame|apply Hsame|lia].
+  - apply (trk_keep k st st' 14 T14); [apply Hsame|apply Hsame|lia].
+  - apply (trk_keep k st st' 15 T15); [apply Hsame|apply Hsame|lia].
+  - intros s Hsk Hlong. rewrite HM.
+    destruct (N.eq_dec s (N.of_nat k)) as [->|Hne]; [lia|].
+    pose proof (I5 s ltac:(lia) Hlong). lia.
+Qed.
+
+Lemma run_step_on : forall k st, N.of_nat k < 286 -> 13 <= Hlen h (N.of_nat k) <= 15 ->
+  run_inv k st ->
+  run_inv (S k) (mstep (sym_extra (N.of_nat k)) (Hlen h (N.of_nat k)) st).
+Proof.
+  intros k st Hs Hl (I1 & T13 & T14 & T15 & I5).
+  set (e := sym_extra (N.of_nat k)) in *.
+  destruct (place (trS (Hlen h (N.of_nat k))) (tro (Hlen h (N.of_nat k)) st)
+                  (trm (Hlen h (N.of_nat k)) st) e) as [[o m] g] eqn:Hp.
+  destruct (mstep_on (Hlen h (N.of_nat k)) e st o m g Hl Hp) as (Ho & Hm & Hacc & HM & Hoth).
+  set (st' := mstep e (Hlen h (N.of_nat k)) st) in *.
+  assert (Tlv : trk_inv k st (Hlen h (N.of_nat k))).
+  { assert (C : Hlen h (N.of_nat k) = 13 \/ Hlen h (N.of_nat k) = 14 \/ Hlen h (N.of_nat k) = 15)
+      by lia.
+    destruct C as [C|[C|C]]; rewrite C; assumption. }
+  pose proof (trk_place k st st' o m g Hs Hl Tlv Hp Ho Hm) as Tnew.
+  destruct (place_spec _ _ _ _ _ _ _ Hp) as (P1 & _ & _).
+  destruct Tlv as (_ & _ & TV).
+  pose proof (Fkey_lt (Hlen h (N.of_nat k))
+                (tcode k (Hlen h (N.of_nat k)) / trS (Hlen h (N.of_nat k)))) as Hkey.
+  pose proof (fun x => Bf_S_high k x Hs Hl) as HB. fold e in HB.
+  assert (I5' : forall s, s < N.of_nat (S k) -> is_long h s = true ->
+                  Hlen h s + sym_extra s <= mM st').
+  { intros s Hsk Hlong. rewrite HM.
+    destruct (N.eq_dec s (N.of_nat k)) as [->|Hne]; [fold e; lia|].
+    pose proof (I5 s ltac:(lia) Hlong). lia. }
+  assert (C : Hlen h (N.of_nat k) = 13 \/ Hlen h (N.of_nat k) = 14 \/ Hlen h (N.of_nat k) = 15)
+    by lia.
+  unfold run_inv.
+  destruct C as [C|[C|C]]; rewrite C in *.
+  - destruct (Hoth 14 ltac:(lia) ltac:(lia)) as [Ho14 Hm14].
+    destruct (Hoth 15 ltac:(lia) ltac:(lia)) as [Ho15 Hm15].
+    split; [|split; [exact Tnew|split; [|split; [|exact I5']]]].
+    + change (m13 st') with (trm 13 st'). change (m14 st') with (trm 14 st').
+      change (m15 st') with (trm 15 st'). rewrite Hm, Hm14, Hm15, Hacc.
+      change (trm 14 st) with (m14 st). change (trm 15 st) with (m15 st).
+      pose proof (sum_place k _ _ (acc st + blkval 4 (m14 st) + blkval 8 (m15 st))
+                    (blkval 2 (m13 st)) (blkval 2 m) g Hkey HB ltac:(lia) TV P1) as Hsp.
+      lia.
+    + apply (trk_keep k st st' 14 T14 Ho14 Hm14). lia.
+    + apply (trk_keep k st st' 15 T15 Ho15 Hm15). lia.
+  - destruct (Hoth 13 ltac:(lia) ltac:(lia)) as [Ho13 Hm13].
+    destruct (Hoth 15 ltac:(lia) ltac:(lia)) as [Ho15 Hm15].
+    split; [|split; [|split; [exact Tnew|split; [|exact I5']]]].
+    + change (m13 st') with (trm 13 st'). change (m14 st') with (trm 14 st').
+      change (m15 st') with (trm 15 st'). rewrite Hm, Hm13, Hm15, Hacc.
+      change (trm 13 st) with (m13 st). change (trm 15 st) with (m15 st).
+      pose proof (sum_place k _ _ (acc st + blkval 2 (m13 st) + blkval 8 (m15 st))
+                    (blkval 4 (m14 st)) (blkval 4 m) g Hkey HB ltac:(lia) TV P1) as Hsp.
+      lia.
+    + apply (trk_keep k st st' 13 T13 Ho13 Hm13). lia.
+    + apply (trk_keep k st st' 15 T15 Ho15 Hm15). lia.
+  - destruct (Hoth 13 ltac:(lia) ltac:(lia)) as [Ho13 Hm13].
+    destruct (Hoth 14 ltac:(lia) ltac:(lia)) as [Ho14 Hm14].
+    split; [|split; [|split; [|split; [exact Tnew|exact I5']]]].
+    + change (m13 st') with (trm 13 st'). change (m14 st') with (trm 14 st').
+      change (m15 st') with (trm 15 st'). rewrite Hm, Hm13, Hm14, Hacc.
+      change (trm 13 st) with (m13 st). change (trm 14 st) with (m14 st).
+      pose proof (sum_place k _ _ (acc st + blkval 2 (m13 st) + blkval 4 (m14 st))
+                    (blkval 8 (m15 st)) (blkval 8 m) g Hkey HB ltac:(lia) TV P1) as Hsp.
+      lia.
+    + apply (trk_keep k st st' 13 T13 Ho13 Hm13). lia.
+    + apply (trk_keep k st st' 14 T14 Ho14 Hm14). lia.
+Qed.
+
+Definition st0 : mst := minit (fcode h 13 mod 2) (fcode h 14 mod 4) (fcode h 15 mod 8).
+
+Lemma run_init : run_inv 0 st0.
+Proof.
+  unfold run_inv, st0. split; [|split; [|split; [|split]]].
+  - rewrite sumN_zero by (intros; reflexivity). lia.
+  - unfold trk_inv, tcode. cbn [count_len]. rewrite N.add_0_r. split; [reflexivity|].
+    split; [intros Hc; exfalso; apply Hc; reflexivity|]. change (blkval (trS 13) (trm 13 (minit (fcode h 13 mod 2) (fcode h 14 mod 4) (fcode h 15 mod 8)))) with 0. lia.
+  - unfold trk_inv, tcode. cbn [count_len]. rewrite N.add_0_r. split; [reflexivity|].
+    split; [intros Hc; exfalso; apply Hc; reflexivity|]. change (blkval (trS 14) (trm 14 (minit (fcode h 13 mod 2) (fcode h 14 mod 4) (fcode h 15 mod 8)))) with 0. lia.
+  - unfold trk_inv, tcode. cbn [count_len]. rewrite N.add_0_r. split; [reflexivity|].
+    split; [intros Hc; exfalso; apply Hc; reflexivity|]. change (blkval (trS 15) (trm 15 (minit (fcode h 13 mod 2) (fcode h 14 mod 4) (fcode h 15 mod 8)))) with 0. lia.
+  - intros s Hs. lia.
+Qed.
+
+Lemma run_all : forall k, (k <= 286)%nat -> run_inv k (mrun (Hlen h) k st0).
+Proof.
+  induction k as [|k IH]; intros Hk286.
+  - exact run_init.
+  - cbn [mrun]. specialize (IH ltac:(lia)).
+    assert (Hs : N.of_nat k < 286) by lia.
+    rewrite <- (sym_extra_class (N.of_nat k) Hs).
+    destruct (N.le_gt_cases (Hlen h (N.of_nat k)) 12) as [Hle|Hgt].
+    + apply run_step_off; assumption.
+    + apply run_step_on; [exact Hs| |exact IH]. pose proof (H15 (N.of_nat k)). lia.
+Qed.
+
+(* if some long code has the key 4095, the open block of track 15 is the block 4095 *)
+Lemma top_block : forall st, run_inv 286 st -> Bf h 286 4095 <> 0 ->
+  blkval 8 (m15 st) <= Bf h 286 4095.
+Proof.
+  intros st (_ & _ & _ & T15 & _) Hnz.
+  destruct T15 as (I1 & I2 & I3).
+  change (trm 15 st) with (m15 st) in *. change (tro 15 st) with (o15 st) in *.
+  change (trS 15) with 8 in *.
+  destruct (N.eq_dec (m15 st) 0) as [Hm0|Hm0].
+  { rewrite Hm0. change (blkval 8 0) with 0. lia. }
+  specialize (I2 Hm0).
+  assert (HT : tcode 286 15 = fcode h 15 + cnt h 15) by reflexivity.
+  assert (HK : tcode 286 15 <= 32768) by (rewrite HT; exact Hk).
+  assert (Htop : tcode 286 15 / 8 = 4095).
+  { destruct (Bf_pos h 286 4095 Hnz) as (s & x & Hs & Hlong & Hx & Hfb).
+    change (N.of_nat 286) with 286 in Hs.
+    pose proof (H15 s) as Hs15.
+    pose proof (ccode_range h s Hs) as Hr.
+    unfold is_long in Hlong.
+    destruct (N.le_gt_cases (Hlen h s) 12) as [Hle|Hgt].
+    - exfalso.
+      assert (Hl : 1 <= Hlen h s <= 12) by lia.
+      pose proof (ccode_lt h s Hk Hs ltac:(lia)) as Hc.
+      destruct (key_low (Hlen h s) (ccode h s) Hl Hc) as [Hb1 Hb2].
+      unfold xfb in Hfb.
+      pose proof (key_low_ones _ _ _ Hle Hb1 Hfb) as Hones.
+      specialize (Hb2 Hones).
+      pose proof (range_15 h (Hlen h s) ltac:(lia)) as H2.
+      assert (H3 : 2 ^ (15 - Hlen h s) * 2 ^ Hlen h s <=
+                   2 ^ (15 - Hlen h s) * (fcode h (N.to_nat (Hlen h s)) + cnt h (Hlen h s))).
+      { apply N.mul_le_mono_l.
+        assert (Hp : 2 ^ Hlen h s <> 0) by (apply N.pow_nonzero; lia). lia. }
+      rewrite <- N.pow_add_r in H3. replace (15 - Hlen h s + Hlen h s) with 15 in H3 by lia.
+      change (2 ^ 15) with 32768 in H3.
+      assert (H4 : tcode 286 15 = 32768) by lia.
+      rewrite H4 in I1. change (32768 mod 8) with 0 in I1. lia.
+    - assert (Hl : 13 <= Hlen h s <= 15) by lia.
+      rewrite (xfb_high h s x Hk Hs Hl) in Hfb.
+      pose proof (ccode_lt h s Hk Hs ltac:(lia)) as Hc.
+      pose proof (range_15 h (Hlen h s) ltac:(lia)) as H2.
+      assert (C : Hlen h s = 13 \/ Hlen h s = 14 \/ Hlen h s = 15) by lia.
+      destruct C as [C|[C|C]]; rewrite C in *.
+      + change (trS 13) with 2 in Hfb. change (2 ^ 13) with 8192 in Hc.
+        change (2 ^ (15 - 13)) with 4 in H2. change (N.to_nat 13) with 13%nat in *.
+        assert (Hb : ccode h s / 2 < 4096) by lia.
+        apply (proj1 (Fkey_4095 13 _ ltac:(lia) Hb)) in Hfb. lia.
+      + change (trS 14) with 4 in Hfb. change (2 ^ 14) with 16384 in Hc.
+        change (2 ^ (15 - 14)) with 2 in H2. change (N.to_nat 14) with 14%nat in *.
+        assert (Hb : ccode h s / 4 < 4096) by lia.
+        apply (proj1 (Fkey_4095 14 _ ltac:(lia) Hb)) in Hfb. lia.
+      + change (trS 15) with 8 in Hfb. change (2 ^ 15) with 32768 in Hc.
+        change (2 ^ (15 - 15)) with 1 in H2. change (N.to_nat 15) with 15%nat in *.
+        assert (Hb : ccode h s / 8 < 4096) by lia.
+        apply (proj1 (Fkey_4095 15 _ ltac:(lia) Hb)) in Hfb. lia. }
+  rewrite Htop in I3.
+  assert (HF : Fkey 15 4095 = 4095) by (apply Fkey_4095; lia).
+  rewrite HF in I3. exact I3.
+Qed.
+
+(* the weight function handed to Part B *)
+Definition Bq (V : N) (g : N) : N :=
+  N.max (Bf h 286 g) (if g =? 4095 then (if Bf h 286 4095 =? 0 then 0 else V) else 0).
+
+Lemma final_bound : forall st, run_inv 286 st -> mfinal st <= 1264 ->
+  sumN KN (Bq (2 ^ (mM st - 12))) <= 1264.
+Proof.
+  intros st Hinv Hfin. pose proof Hinv as (I1 & _).
+  unfold mfinal in Hfin. unfold Bq.
+  pose proof (sumN_upd KN (Bf h 286) 4095
+                (if Bf h 286 4095 =? 0 then 0 else 2 ^ (mM st - 12)) ltac:(lia)) as Hu.
+  destruct (N.eqb_spec (Bf h 286 4095) 0) as [Hz|Hnz].
+  - lia.
+  - pose proof (top_block st Hinv Hnz) as Ht. lia.
+Qed.
+
+End Inv.
+
+(* ---------------------------------------------------------------- assembly *)
+From Verif Require EngineSafetyLitLen EngineSafetyHeader.
+From Verif Require Import EngineSafetyLongFitCodes EngineSafetyLongFitLoop EngineSafetyLongFitDP.
+
+Lemma hc_code_set' : forall c l, c < 16777216 -> l < 256 -> hc_code (hc_set c l) = c.
+Proof.
+  intros c l Hc Hl. unfold hc_code, hc_set.
+  assert (Hs : N.shiftl l 24 < 2 ^ 32).
+  { change 32 with (8 + 24). apply shiftl_lt_pow2. exact Hl. }
+  rewrite u32_small.
+  - change 16777215 with (N.ones 24). apply land_ones_lor_shiftl. exact Hc.
+  - change 4294967296 with (2 ^ 32). apply lor_lt_pow2; [|exact Hs].
+    change (2 ^ 32) with 4294967296. lia.
+Qed.
+
+(* the stored entry of an expansion: length, code, key *)
+Lemma xentry_facts : forall h s x, s < 286 -> x < 2 ^ sym_extra s -> Hlen h s <= 15 ->
+  hc_len (xentry h s x) = Hlen h s + sym_extra s /\
+  hc_code (xentry h s x) < 1048576 /\
+  N.land (hc_code (xentry h s x)) 4095 = xfb h s x.
+Proof.
+  intros h s x Hs Hx Hl.
+  pose proof (sym_class_le s Hs) as He. rewrite <- (sym_extra_class s Hs) in He.
+  set (code := N.lor (bitReverse2 (ccode h s) (Hlen h s)) (N.shiftl x (Hlen h s))).
+  assert (Hcode : code < 1048576).
+  { change 1048576 with (2 ^ 20). apply lor_lt_pow2.
+    - pose proof (bitReverse2_lt (ccode h s) (Hlen h s)). change (2 ^ 20) with 1048576. lia.
+    - apply N.lt_le_trans with (2 ^ (5 + Hlen h s)).
+      + apply shiftl_lt_pow2. apply N.lt_le_trans with (2 ^ sym_extra s); [exact Hx|].
+        apply N.pow_le_mono_r; lia.
+      + apply N.pow_le_mono_r; lia. }
+  unfold xentry. fold code.
+  rewrite hc_len_set by lia. rewrite hc_code_set' by lia.
+  split; [reflexivity|]. split; [exact Hcode|reflexivity].
+Qed.
+
+Theorem long_codes_fit : EngineSafetyHeader.LongCodesFit.
+Proof.
+  unfold EngineSafetyHeader.LongCodesFit. intros d d1 Hpost Hset.
+  destruct (codes_desc d d1 Hpost Hset) as [Hkr Hent].
+  destruct (setAndExpand_spec d d1 ENone Hset Hpost) as (_ & Hsorted & _).
+  specialize (Hsorted eq_refl).
+  remember (litAndDistHuff d) as h eqn:Eh.
+  assert (Hkraft : kraft_ok h) by exact Hkr.
+  assert (H15 : forall s, Hlen h s <= 15).
+  { intros s. destruct Hpost as (Hok & _). destruct (Hok s) as [_ H]. exact H. }
+  pose proof (run_all 4096%nat eq_refl h Hkraft H15 286%nat (le_n _)) as Hinv.
+  assert (Hm : mfinal (mrun (Hlen h) 286 (st0 h)) <= 1264).
+  { apply machine_bound; apply N.mod_lt; lia. }
+  remember (mrun (Hlen h) 286 (st0 h)) as st eqn:Est.
+  pose proof (final_bound 4096%nat eq_refl h Hkraft H15 st Hinv Hm) as Hsum.
+  apply (groups_bound d1 (Bq h (2 ^ (mM st - 12))) (2 ^ (mM st - 12)) Hsorted); [|exact Hsum].
+  clear Hsum Hm.
+  intros k Hklt. cbv zeta. unfold long_entry.
+  pose proof (EngineSafetyLitLen.lc_mono d1 Hsorted 13 22 ltac:(lia) ltac:(lia)) as Hmono.
+  destruct (EngineSafetyLitLen.bucket_ex d1 Hsorted 13 22 (aget (litCount d1) 13 + k)
+              ltac:(lia) ltac:(lia) ltac:(lia)) as (L & HL & _ & Ht & HlenL).
+  set (t := aget (codeList d1) (aget (litCount d1) 13 + k)) in *.
+  destruct (Hent t Ht ltac:(lia)) as (s & x & Hs & Hx & Hnz & Hv).
+  rewrite Hv in *.
+  destruct (xentry_facts h s x Hs Hx (H15 s)) as (F1 & F2 & F3).
+  rewrite F1 in *. rewrite F3.
+  assert (Hlong : is_long h s = true) by (unfold is_long; lia).
+  destruct Hinv as (_ & _ & _ & _ & I5).
+  pose proof (I5 s ltac:(lia) Hlong) as HM.
+  pose proof (Bf_ge h 286 s x ltac:(lia) Hlong Hx) as Hge. unfold xw in Hge.
+  assert (Hpos : 2 ^ (Hlen h s + sym_extra s - 12) <> 0) by (apply N.pow_nonzero; lia).
+  split; [exact F2|]. split; [|split].
+  - unfold Bq. lia.
+  - apply N.pow_le_mono_r; lia.
+  - intros H4095. unfold Bq. rewrite H4095 in Hge. rewrite N.eqb_refl.
+    destruct (N.eqb_spec (Bf h 286 4095) 0) as [Hz|_]; lia.
+Qed.
+
+Print Assumptions long_codes_fit.
